@@ -113,6 +113,8 @@ def id_order(ds):
 # directions, so that the model keeps working on the case's own integers.
 CURRENT = {}
 HOSTILE_NAMES = ["a", "b", "a}, {b", "a, b", "007", "-1", "x y", "[c]", "{d", "b}", "0x1f", "1e3", " "]
+# ... or to integers that are hostile to code that uses an element's value as an index or stores it in a narrow type
+HOSTILE_INTS = [-1, -2, -3, -7, -1000, 2 ** 31, 2 ** 31 + 5, 2 ** 40, 10 ** 6 + 3, 65536, 32768, 255, 0]
 
 
 def fwd(e):
@@ -147,9 +149,12 @@ def decorate_cases(cases, rng, names_rate=0.0, past_rate=0.0):
         c2 = c
         if all_int and elems and len(elems) <= len(HOSTILE_NAMES) and rng.random() < names_rate:
             c2 = dict(c2)
-            names = rng.sample(HOSTILE_NAMES, len(elems))
-            if all(n.isdigit() for n in names):
-                names[0] = "a"
+            if rng.random() < 0.35:
+                names = rng.sample(HOSTILE_INTS, len(elems))        # all integers: the dataset stays integer-typed
+            else:
+                names = rng.sample(HOSTILE_NAMES, len(elems))
+                if all(n.isdigit() for n in names):
+                    names[0] = "a"
             c2["_names"] = [[e, n] for e, n in zip(elems, names)]
         if all_int and elems and rng.random() < past_rate:
             c2 = dict(c2)
